@@ -70,14 +70,64 @@ def _and(a, b):
     return sym.And(a, b)
 
 
+class CRange:
+    """A concrete range whose membership test also accepts symbolic integers (builtins.range falls back to a
+    linear search with == for non-int arguments)."""
+    def __init__(self, r):
+        self._r = r
+
+    def __contains__(self, x):
+        if _symint(x):
+            r = self._r
+            if len(r) == 0:
+                return False
+            lo, hi = (r[0], r[-1]) if r.step > 0 else (r[-1], r[0])
+            c = _and(x >= lo, x <= hi)
+            if abs(r.step) != 1:
+                c = _and(c, (x - r[0]) % abs(r.step) == 0)
+            return bool(c)
+        return x in self._r
+
+    def __iter__(self):
+        return iter(self._r)
+
+    def __len__(self):
+        return len(self._r)
+
+    def __getitem__(self, i):
+        return self._r[i]
+
+    def __reversed__(self):
+        return reversed(self._r)
+
+    def __eq__(self, other):
+        return self._r == (other._r if isinstance(other, CRange) else other)
+
+    def __hash__(self):
+        return hash(self._r)
+
+    def __repr__(self):
+        return repr(self._r)
+
+    start = property(lambda self: self._r.start)
+    stop = property(lambda self: self._r.stop)
+    step = property(lambda self: self._r.step)
+
+    def index(self, x):
+        return self._r.index(x)
+
+    def count(self, x):
+        return self._r.count(x)
+
+
 class _RangeMeta(type):
     def __instancecheck__(cls, obj):
-        return isinstance(obj, (SRange, builtins.range))
+        return isinstance(obj, (SRange, CRange, builtins.range))
 
     def __call__(cls, *args):
         if any(_symint(a) for a in args):
             return SRange(*args) if len(args) > 1 else SRange(0, args[0])
-        return builtins.range(*args)
+        return CRange(builtins.range(*args))
 
 
 class RangeShim(metaclass=_RangeMeta):
@@ -88,7 +138,7 @@ def shim_isinstance(obj, cls):
     if cls is builtins.int or cls is IntShim:
         return _symint(obj) or builtins.isinstance(obj, builtins.int)
     if cls is builtins.range or cls is RangeShim:
-        return builtins.isinstance(obj, (SRange, builtins.range))
+        return builtins.isinstance(obj, (SRange, CRange, builtins.range))
     if builtins.isinstance(cls, tuple):
         return any(shim_isinstance(obj, c) for c in cls)
     return builtins.isinstance(obj, cls)
